@@ -120,12 +120,20 @@ func c12Oracle(c *Case) Oracle {
 			}
 		}
 		mutated := map[int]bool{}
+		// one in-process recipient per publication rewrites its copy; every other
+		// recipient of that publication - in-process ones on other subscriptions
+		// included - must keep what it was handed
+		rewrotePub := map[wamp.ID]bool{}
 		for i, s := range cur {
 			if !w.sess[s.sess].local {
 				continue
 			}
 			switch x := s.msg.(type) {
 			case *wamp.Event:
+				if rewrotePub[x.Publication] {
+					continue
+				}
+				rewrotePub[x.Publication] = true
 				if x.Details != nil {
 					x.Details["verif_mutation"] = s.sess
 				}
